@@ -389,7 +389,9 @@ def cocompute_cases(ctx: Ctx):
             variants.append(("expected_groups", base("sum", ch, method=m, expected_groups=[[5, 15, 25]], fill_value=0), {"expected_groups": [[5, 15, 35]]}))
         variants.append(("q", base("quantile", [6], method="blockwise", finalize_kwargs={"q": 0.5}), {"finalize_kwargs": {"q": 0.9}}))
         variants.append(("scan-array", dict(api="scan", array=enc(v), by=[enc(lab)], func="nancumsum", chunks=[ch]), {"array": enc(v2)}))
-        variants.append(("scan-labels", dict(api="scan", array=enc(v), by=[enc(lab)], func="ffill", chunks=[ch]), {"by": [enc(lab2)]}))
+        # data with NaN runs: on NaN-free data a forward fill is the identity whatever the labels are (a label mix-up would not show)
+        variants.append(("scan-labels", dict(api="scan", array=enc(np.where(v > 2, np.nan, v)), by=[enc(lab)], func="ffill", chunks=[ch]), {"by": [enc(lab2)]}))
+        variants.append(("scan-labels-cumsum", dict(api="scan", array=enc(v), by=[enc(lab)], func="nancumsum", chunks=[ch]), {"by": [enc(lab2)]}))
         variants.append(("scan-func", dict(api="scan", array=enc(np.where(v > 2, np.nan, v)), by=[enc(lab)], func="ffill", chunks=[ch]), {"func": "bfill"}))
     for name, a, delta in variants:
         b = dict(a)
